@@ -299,7 +299,8 @@ func (dec *xmlDecoder) decodeXML(root *xmlNode) error {
 				log.Debug("chardata [%v] for %v", elem.n.Data, elem.label)
 			}
 		case xml.EndElement:
-			if elem == nil {
+			if elem == nil || elem.parent == nil {
+				// a closing tag without a matching open tag; stay on the root element
 				log.Debug("no element, probably bad xml")
 				continue
 			}
